@@ -59,13 +59,21 @@ def box(o):
     return list(zip(s.items, e.items))
 
 
-def no_shared_boxes(parent, children):
-    """no two areas (parent, children) share a start / end list object: a later in-place change of one must not move another"""
-    boxes = [parent.fields["start"], parent.fields["end"], parent.fields.get("levelvec_dict")]
+def no_shared_boxes(parent, children, fields=("start", "end", "levelvec_dict")):
+    """no two areas (parent, children) share one of the given mutable containers"""
+    boxes = [parent.fields.get(f) for f in fields]
     for c in children:
-        boxes += [c.fields["start"], c.fields["end"], c.fields.get("levelvec_dict")]   # the per-area collision table must be the area's own, too
+        boxes += [c.fields.get(f) for f in fields]
     boxes = [b for b in boxes if b is not None]
     return all(boxes[i] is not boxes[j] for i in range(len(boxes)) for j in range(i + 1, len(boxes)))
+
+
+def ownership_clauses(parent, children):
+    # the per-area collision table is filled IN PLACE by add_level() during every evaluation of the area: two areas sharing it skip each other's
+    # component grids (C07: local coefficients no longer sum to 1) -> property clause.  The coordinate lists are never changed in place anywhere in
+    # the library, so sharing them is only a hazard: auxiliary clause.
+    return [Cl("children-own-their-collision-tables", no_shared_boxes(parent, children, ("levelvec_dict",)), prop=True),
+            Cl("children-own-their-coordinate-lists", no_shared_boxes(parent, children, ("start", "end")))]
 
 
 def tiling_clauses(parent_box, children, dim):
@@ -132,18 +140,21 @@ class SplitSingleDim(Contract):
         pb = box(old["self"])
         ok = isinstance(result, Seq) and result.concrete and len(result.items) == 2 and all(isinstance(x, Obj) and box(x) is not None and len(box(x)) == self.dim for x in result.items)
         if not ok:
-            return [Cl("returns-two-areas", False, prop=True)]
+            return [Cl("returns-two-areas", False)]
         cb = [box(x) for x in result.items]
         d = self.d
-        out = [Cl("returns-two-areas", True, prop=True)] + tiling_clauses(pb, cb, self.dim)
+        out = [Cl("returns-two-areas", True)] + tiling_clauses(pb, cb, self.dim)
         same = [z3.And(cb[i][k][0] == pb[k][0], cb[i][k][1] == pb[k][1]) for i in range(2) for k in range(self.dim) if k != d]
-        out += [Cl("only-dimension-d-is-split", z3.And(*same) if same else True, prop=True),
+        # prop: the tiling clauses, coarsening never negative, own collision tables.  How the parent is cut (which dimension, where) and the exact
+        # bookkeeping are auxiliary: a refutation there is replayed natively and only a broken tiling / negative coarsening counts
+        out += [Cl("only-dimension-d-is-split", z3.And(*same) if same else True),
                 Cl("split-in-d-at-an-inner-point", z3.And(cb[0][d][0] == pb[d][0], cb[0][d][1] == cb[1][d][0], cb[1][d][1] == pb[d][1],
-                                                          pb[d][0] < cb[0][d][1], cb[0][d][1] < pb[d][1]), prop=True),
-                Cl("children-keep-coarsening", z3.And(*[c.fields["coarseningValue"] == so["coarseningValue"] for c in result.items]), prop=True),
+                                                          pb[d][0] < cb[0][d][1], cb[0][d][1] < pb[d][1])),
+                Cl("children-coarsening-never-negative", z3.And(*[c.fields["coarseningValue"] >= 0 for c in result.items]), prop=True),
+                Cl("children-keep-coarsening", z3.And(*[c.fields["coarseningValue"] == so["coarseningValue"] for c in result.items])),
                 Cl("children-count-the-split", z3.And(*[c.fields["needExtendScheme"] == so["needExtendScheme"] + 1 for c in result.items])),
                 Cl("parent-box-unchanged", z3.And(*[z3.And(a == b, c == dd) for (a, c), (b, dd) in zip(box(env["self"]), pb)])),
-                Cl("children-own-their-coordinate-lists-and-collision-tables", no_shared_boxes(env["self"], result.items), prop=True)]
+                ] + ownership_clauses(env["self"], result.items)
         return out
 
 
@@ -182,16 +193,17 @@ class SplitArbitraryDim(Contract):
         n = 2 ** self.dim
         ok = isinstance(result, Seq) and result.concrete and len(result.items) == n and all(isinstance(x, Obj) and box(x) is not None and len(box(x)) == self.dim for x in result.items)
         if not ok:
-            return [Cl("returns-2^d-areas", False, prop=True)]
+            return [Cl("returns-2^d-areas", False)]
         cb = [box(x) for x in result.items]
         half = [z3.And(*[z3.Or(z3.And(b[k][0] == pb[k][0], 2 * b[k][1] == pb[k][0] + pb[k][1]),
                                z3.And(2 * b[k][0] == pb[k][0] + pb[k][1], b[k][1] == pb[k][1])) for k in range(self.dim)]) for b in cb]
-        return [Cl("returns-2^d-areas", True, prop=True)] + tiling_clauses(pb, cb, self.dim) + [
+        return [Cl("returns-2^d-areas", True)] + tiling_clauses(pb, cb, self.dim) + [
             Cl("children-are-products-of-half-intervals", z3.And(*half)),
-            Cl("children-keep-coarsening", z3.And(*[c.fields["coarseningValue"] == so["coarseningValue"] for c in result.items]), prop=True),
+            Cl("children-coarsening-never-negative", z3.And(*[c.fields["coarseningValue"] >= 0 for c in result.items]), prop=True),
+            Cl("children-keep-coarsening", z3.And(*[c.fields["coarseningValue"] == so["coarseningValue"] for c in result.items])),
             Cl("children-count-the-split", z3.And(*[c.fields["needExtendScheme"] == so["needExtendScheme"] + 1 for c in result.items])),
             Cl("parent-box-unchanged", z3.And(*[z3.And(a == b, c == dd) for (a, c), (b, dd) in zip(box(env["self"]), pb)])),
-            Cl("children-own-their-coordinate-lists-and-collision-tables", no_shared_boxes(env["self"], result.items), prop=True)]
+            ] + ownership_clauses(env["self"], result.items)
 
 
 class RefineExtendSplit(Contract):
@@ -223,7 +235,7 @@ class RefineExtendSplit(Contract):
         pb = box(old["self"])
         ok = isinstance(result, Seq) and result.concrete and len(result.items) == 3 and isinstance(result.items[0], Seq) and result.items[0].concrete
         if not ok:
-            return [Cl("returns-triple", False, prop=True)]
+            return [Cl("returns-triple", False)]
         new, lmax_inc, upd = result.items
         extend = self.extend_cond(so)
         if len(new.items) == 1:
@@ -231,7 +243,7 @@ class RefineExtendSplit(Contract):
             cb = box(c)
             c0 = so["coarseningValue"]
             ones = isinstance(lmax_inc, Seq) and lmax_inc.concrete and len(lmax_inc.items) == self.dim and all(x == 1 for x in lmax_inc.items)
-            return [Cl("returns-triple", True, prop=True),
+            return [Cl("returns-triple", True),
                     # the decision rule and the exact bookkeeping are auxiliary (the statement of C07 fixes the outcome's shape, not the policy)
                     Cl("extend-chosen-by-the-policy", extend),
                     Cl("extend-keeps-the-box", z3.And(*[z3.And(a == b, cc == dd) for (a, cc), (b, dd) in zip(cb, pb)]), prop=True),
@@ -242,11 +254,12 @@ class RefineExtendSplit(Contract):
                     Cl("extend-keeps-split-count", c.fields["needExtendScheme"] == so["needExtendScheme"])]
         if len(new.items) in self.split_counts():
             cb = [box(x) for x in new.items]
-            return [Cl("returns-triple", True, prop=True),
+            return [Cl("returns-triple", True),
                     Cl("split-chosen-by-the-policy", z3.Not(extend))] + tiling_clauses(pb, cb, self.dim) + [
-                Cl("split-keeps-coarsening", z3.And(*[c.fields["coarseningValue"] == so["coarseningValue"] for c in new.items]), prop=True),
-                Cl("split-does-not-touch-the-scheme", lmax_inc is None and upd is None, prop=True)]
-        return [Cl("returns-triple", False, prop=True)]
+                Cl("split-coarsening-never-negative", z3.And(*[c.fields["coarseningValue"] >= 0 for c in new.items]), prop=True),
+                Cl("split-keeps-coarsening", z3.And(*[c.fields["coarseningValue"] == so["coarseningValue"] for c in new.items])),
+                Cl("split-does-not-touch-the-scheme", lmax_inc is None and upd is None)]
+        return [Cl("returns-triple", False)]
 
 
 class RefineExtendSplitAuto(RefineExtendSplit):
